@@ -195,7 +195,7 @@ def check_request(ctx, seed, k):
     if validate(schema, doc):
         return
     fault = [0.0, 0.0, 0.15][seed % 3]
-    if seed % 11 == 10:
+    if seed % 11 in (10, 3):
         fault = 0.25      # the split-defer family exists for fragments that fail while a sibling unit of work is running
     value_fn = make_value(schema, seed, fault)
     if seed % 11 == 6 and seed % 2:
@@ -293,7 +293,7 @@ def run_shard(ctx):
     # the template families (streams on async sources, fragments split into several units of work, overlapping and
     # list-nested fragments) get a share of their own: they are where stops meet half-built incremental state
     for k in range(ctx.n(800, 12000)):
-        fam = (6, 6, 6, 10, 7, 9, 4)[k % 7]
+        fam = (6, 6, 6, 10, 7, 9, 4, 3)[k % 8]
         ctx.count("template_family_requests")
         check_request(ctx, (base + k) * 11 + fam, k + 1)
 
